@@ -288,6 +288,7 @@ func runC16(run *Run, replay string) {
 		for _, sc := range genScenarios(r, ScenarioOpts{Histories: 2, Inject: bi%3 == 1, Gen: GenOpts{Degenerate: bi%5 == 4, DynFocus: bi%6 == 5}}) {
 			n := mergeCases(run, sc, 12)
 			n += linksOracle(run, sc)
+			linksCase(run, sc)
 			run.Res.Evaluations += n
 			if n > 0 {
 				run.Distinct("merge|" + string(sc.Src))
